@@ -133,12 +133,13 @@ def readRichAt (r : Rd) : Res (List Nat × Rd) :=
     let highByte := flags % 2 == 1
     let rich := flags / 8 % 2 == 1
     let ext := flags / 4 % 2 == 1
-    -- `read_u16(r.data)` / `read_i32(r.data)` slice-index the remaining fragment: panic when short
-    if rich && data.length < 2 then .panic "read_rich_extended_string: cRun"
+    -- cRun / cbExtRst must sit in the same fragment as the rest of the header (length checks added by the
+    -- robustness fix; the pinned code slice-indexed the remaining fragment and panicked)
+    if rich && data.length < 2 then .err s!"Len:rich extended string:2:{data.length}"
     else
       let cRun := if rich then u16 data else 0
       let data := if rich then data.drop 2 else data
-      if ext && data.length < 4 then .panic "read_rich_extended_string: cbExtRst"
+      if ext && data.length < 4 then .err s!"Len:rich extended string:4:{data.length}"
       else
         let cbExt := if ext then i32AsUsize (u32 data) else 0
         let data := if ext then data.drop 4 else data
@@ -163,12 +164,14 @@ def readStrings : Nat → Rd → Res (List (List Nat))
     let ss ← readStrings n r
     pure (s :: ss)
 
-/-- `parse_sst`: cstTotal (ignored), cstUnique, then that many strings -/
+/-- `parse_sst`: cstTotal (ignored), cstUnique, then that many strings. A negative cstUnique is an `Err`
+    (`try_into()` mapped to `XlsError::Len`); the capacity reserved for the result is bounded by the bytes
+    of the record (`len.min(avail / 3 + 1)`), which has no observable effect and is not modelled. -/
 def parseSst (r : Rec) : Res (List (List Nat)) :=
   if r.data.length < 8 then .err s!"Len:sst:8:{r.data.length}"
   else
     let n := u32 (r.data.drop 4)
-    if 2147483648 ≤ n then .panic "parse_sst: negative cstUnique (try_into().unwrap())"
+    if 2147483648 ≤ n then .err s!"Len:sst count:0:{n}"
     else readStrings n ⟨r.data.drop 8, r.cont⟩
 
 /-! ### Record framing -/
